@@ -18,6 +18,7 @@ def check(ctx):
     rep.floor("stores to Scanner.is_eof", neo, 3)
     zincspec.check_exponent_reader(ctx, rep)
     zincspec.check_line_breaks_are_tokens(ctx, rep)
+    zincspec.check_date_lookahead(ctx, rep)
     from rules import zincspec as _zl
     nla = _zl.check_lookahead_on_demand(ctx, rep)
     rep.floor("propagated look-aheads in the number / date dispatcher", nla, 2)
